@@ -254,6 +254,9 @@ func (c *trCtx) exprAs(e ast.Expr, ty types.Type) string {
 		if r, ok := c.perfNil(e, ty); ok {
 			return r
 		}
+		if r, ok := c.tableNil(e, ty); ok {
+			return r // r.table = nil (trans_units_tablerender.go)
+		}
 		if r, ok := c.createNil(e, ty); ok {
 			return r // nil for a *T result of a Create function (trans_units_create.go)
 		}
@@ -494,6 +497,10 @@ func (c *trCtx) externalCall(fobj *types.Func, x *ast.CallExpr) (string, bool) {
 func (c *trCtx) passExtras(tf *trFunc) []string {
 	var names []string
 	for _, ty := range tf.extras {
+		if n, ok := c.ambientExtra(ty); ok {
+			names = append(names, n) // the caller's own (trans_units_tablerender.go)
+			continue
+		}
 		c.norder++
 		n := "extra" + itoa(c.norder)
 		c.extraParams = append(c.extraParams, "("+n+" : "+ty+")")
@@ -747,6 +754,9 @@ func (c *trCtx) composite(x *ast.CompositeLit) string {
 	switch u := under.(type) {
 	case *types.Struct:
 		if u.NumFields() == 0 {
+			if lt != "Unit" {
+				return "({} : " + lt + ")" // a NAMED struct type without fields is a structure (trans_units_tablerender.go)
+			}
 			return "()"
 		}
 		given := map[string]string{}
@@ -915,6 +925,9 @@ func (c *trCtx) call(x *ast.CallExpr) string {
 	if r, ok := c.regexpMatchCall(x); ok {
 		return r // re.MatchString(s) on a *regexp.Regexp value (trans_units_mapping.go)
 	}
+	if r, ok := c.colorCall(x); ok {
+		return r // color.New(attrs…) (trans_units_tablerender.go)
+	}
 	if r, ok := c.regexpCall(x); ok {
 		return r // re.ReplaceAllString on a package-level regular expression of the prelude (trans_units_beancount.go)
 	}
@@ -1076,6 +1089,9 @@ func (c *trCtx) builtin(name string, x *ast.CallExpr) string {
 					return "([] : " + lt + ")" // make([]T, 0, cap): the capacity is not observable
 				}
 			}
+			if r, ok := c.makeSliceLen(x); ok {
+				return r // (trans_units_tablerender.go)
+			}
 			trFail(x.Pos(), "make of a slice with a non-zero length is outside the subset")
 		case *types.Map:
 			return "([] : " + lt + ")"
@@ -1098,6 +1114,9 @@ func (c *trCtx) fmtCall(name string, x *ast.CallExpr) string {
 		// the operands are evaluated by Go but have no effect in the subset; the message keeps the format only
 		return "(some (Error.mk " + trLeanStr(format) + "))"
 	case "Sprintf":
+		if s, ok := c.floatSprintf(x, 0); ok {
+			return s // a verb f (trans_units_tablerender.go)
+		}
 		var parts []string
 		arg := 1
 		lit := ""
